@@ -114,7 +114,7 @@ def knownStrategy (s : Name) : Option Name :=
   | _ => none
 
 /-- largest per-frame overhead of the link service: an MTU not above it cannot carry a packet -/
-def specMaxOverhead : Nat := 56
+def specMaxOverhead : Nat := 60
 /-- MTUs from here on must be accepted (the band in between is left to the implementation) -/
 def specMinMtu : Nat := 64
 
